@@ -345,7 +345,7 @@ class Interp:
         if self.depth > MAX_DEPTH:
             raise AnalysisError('inlining depth exceeded at ' + fd.key)
         active = [f.func for f in st.frames if f.func is not None]
-        if active.count(fd) >= 2:
+        if active.count(fd) >= getattr(self.hooks, 'max_recursion', 2):
             raise AnalysisError('recursion in scope at ' + fd.key)
         self.depth += 1
         try:
@@ -435,6 +435,9 @@ class Interp:
                     fv = self.fo._binop(s.op, cur.v, v.v)
                     if not is_unknown(fv):
                         newv = K(fv)
+                if isinstance(cur, ListVal) and isinstance(v, ListVal) and isinstance(s.op, ast.Add) \
+                        and cur.is_tuple == v.is_tuple:
+                    newv = ListVal(cur.items + v.items, cur.is_tuple)
                 s2.trace.append(Event('aug', (unparse(s.target), type(s.op).__name__, v), s, s2.frame.func))
                 self.assign_target(s.target, newv if newv is not None else Sym('aug', node=s,
                                                                                   origin=('aug', cur, v)), s2)
@@ -896,6 +899,12 @@ class Interp:
                 items = self.concrete_items(base)
                 if items is not None and isinstance(idx, K) and isinstance(idx.v, int) and -len(items) <= idx.v < len(items):
                     v = items[idx.v]
+                elif isinstance(base, ListVal) and isinstance(node.slice, ast.Slice) and node.slice.step is None \
+                        and all(b is None or (isinstance(b, ast.Constant) and isinstance(b.value, int))
+                                for b in (node.slice.lower, node.slice.upper)):
+                    lo = node.slice.lower.value if node.slice.lower is not None else None
+                    hi = node.slice.upper.value if node.slice.upper is not None else None
+                    v = ListVal(base.items[lo:hi], base.is_tuple)
                 elif isinstance(base, K) and isinstance(base.v, dict) and isinstance(idx, K):
                     try:
                         if idx.v in base.v:
@@ -935,8 +944,8 @@ class Interp:
                     out.append((kind, itv, s))
                     continue
                 items = self.concrete_items(itv)
-                if items is not None and not g.ifs and len(items) <= 16:
-                    # map over a literal sequence
+                if items is not None and len(items) <= (16 if not g.ifs else 4):
+                    # map (and filter) over a literal sequence
                     results = [('val', [], s)]
                     for it in items:
                         nxt = []
@@ -946,11 +955,22 @@ class Interp:
                                 continue
                             saved = self._save_targets(g.target, s1)
                             self.assign_target(g.target, it, s1)
-                            for k2, v2, s2 in self.ev(node.elt, s1):
-                                if k2 == 'raise':
-                                    nxt.append((k2, v2, s2))
-                                else:
-                                    nxt.append(('val', vals + [v2], s2))
+                            kept = [s1]
+                            for cond in g.ifs:
+                                k_nxt = []
+                                for s_k in kept:
+                                    for truth, s_c in self.ev_cond(cond, s_k):
+                                        if truth:
+                                            k_nxt.append(s_c)
+                                        else:
+                                            nxt.append(('val', vals, s_c))
+                                kept = k_nxt
+                            for s_k in kept:
+                                for k2, v2, s2 in self.ev(node.elt, s_k):
+                                    if k2 == 'raise':
+                                        nxt.append((k2, v2, s2))
+                                    else:
+                                        nxt.append(('val', vals + [v2], s2))
                         results = nxt
                     for k1, vals, s1 in results:
                         if k1 == 'raise':
@@ -1179,6 +1199,9 @@ class Interp:
         over = self.hooks.on_call(self, node, cv, cdef, args, kwargs, st)
         if over is not None:
             return over
+        seq = self._sequence_builtin(node, cv, cdef, args, kwargs, st)
+        if seq is not None:
+            return seq
         # ---- inlining
         if isinstance(cv, FuncVal) and cv.lam is not None:
             env = {}
@@ -1255,6 +1278,45 @@ class Interp:
             rv = self.default_result(cdef, cv, node, args, kwargs, st, ev_idx)
         results.append(('val', rv, st))
         return results
+
+    def _sequence_builtin(self, node, cv, cdef, args, kwargs, st):
+        """len / tuple / list of a literal sequence and list.append on one: computed, so that the order of a
+        sequence that is built and consumed in the analysed code is known, not guessed"""
+        if kwargs:
+            return None
+        if isinstance(cdef, External) and cdef.dotted in ('builtins.len', 'builtins.tuple', 'builtins.list'):
+            name = cdef.dotted.split('.')[1]
+            if name != 'len' and not args:
+                return [('val', ListVal([], name == 'tuple'), st)]
+            if len(args) != 1:
+                return None
+            items = self.concrete_items(args[0])
+            if items is None or (isinstance(args[0], K) and isinstance(args[0].v, frozenset)):
+                return None
+            if name == 'len':
+                return [('val', K(len(items)), st)]
+            return [('val', ListVal(list(items), name == 'tuple'), st)]
+        if isinstance(cv, Sym) and cv.origin and cv.origin[0] == 'attr' and isinstance(cv.origin[1], ListVal) \
+                and not cv.origin[1].is_tuple:
+            old = cv.origin[1]
+            meth = cv.origin[2]
+            new_items = None
+            if meth == 'append' and len(args) == 1:
+                new_items = old.items + [args[0]]
+            elif meth == 'extend' and len(args) == 1:
+                more = self.concrete_items(args[0])
+                if more is not None and not isinstance(args[0], K):
+                    new_items = old.items + list(more)
+            if new_items is not None:
+                if self.hooks.record_call(cdef, node):
+                    st.trace.append(Event('call', {'callee': cdef, 'args': args, 'kwargs': kwargs, 'recv': old,
+                                                   'callee_val': cv}, node, st.frame.func))
+                st.replace_value(old, ListVal(new_items))
+                return [('val', NONE, st)]
+            if meth in ('append', 'extend', 'insert', 'remove', 'pop', 'sort', 'reverse', 'clear'):
+                # a mutation that is not modelled: the contents are no longer known
+                st.replace_value(old, Sym('mutated-list', origin=('mutated', old, meth), node=node))
+        return None
 
     def _remap_closure(self, closure: Optional[Frame], st: State) -> Optional[Frame]:
         if closure is None:
@@ -1532,6 +1594,8 @@ class Interp:
                     out = out and e
                 return out
             try:
+                if identity and _is_simple_const(a) and type(a) is not type(b):
+                    return False  # `True is 1` is false although `True == 1`
                 return (a is b) if identity and not _is_simple_const(a) else bool(a == b)
             except Exception:
                 return None
